@@ -45,7 +45,7 @@ class Sim:
         self.stdout = io.StringIO()
         self.active = False
         self.n_decisions = 0
-        self.max_decisions = 300000
+        self.max_decisions = 80000
 
     # ------------------------------------------------------------ tqdm stub
     def progress(self, iterable=None, *a, **kw):
